@@ -604,11 +604,14 @@ func runC18(seed int64, n int, out string) *RunReport {
 			}
 		}
 	}
+	// structs through NewDocumentOf and Document.Unmarshal (unm.go)
+	unmOutcomes := map[string]int{}
+	runUnmarshalCases(g, n*4, cs, f, &evals, unmOutcomes, &samples)
 	files := cs.Write(out, "c18")
 	return &RunReport{Stream: "c18", Seed: seed, Evaluations: evals, Distinct: len(kinds),
-		Rule:         "one evaluation = one Normalize (or Set) call on a Go value built from structs with tags, pointers, maps, slices, arrays and unsupported kinds, compared with the model and checked for canonicity, idempotence and the Set/Get/Has laws; distinct = distinct Go types",
+		Rule:         "one evaluation = one Normalize (or Set) call on a Go value built from structs with tags, pointers, maps, slices, arrays and unsupported kinds, compared with the model and checked for canonicity, idempotence and the Set/Get/Has laws, or one NewDocumentOf + Document.Unmarshal of a reflect-filled struct (same or another target type) compared with the model's Unmarshal and checked for: document unchanged, and inside the round-trip domain Normalize(result) = Normalize(original); distinct = distinct Go types",
 		OracleFails:  f.fails, CaseFiles: files, Samples: samples, Known: keysOf(known),
-		Distribution: map[string]interface{}{"rounds": n, "go_types": len(kinds), "outcomes": outcomes}}
+		Distribution: map[string]interface{}{"rounds": n, "go_types": len(kinds), "outcomes": outcomes, "unmarshal": unmOutcomes, "unmarshal_struct_types": len(unmTypes)}}
 }
 
 // nonCanonical reports the first place where v leaves {nil,int64,uint64,float64,string,bool,time.Time,
